@@ -22,7 +22,7 @@
    * every handler is callable from any sender at any height.  Since /repo d276709 DeliverTx runs the kind's
      Validate first (signatures, fee, OLT currency, address / id / opinion syntax); none of these checks looks at
      the governance state, and the model's operations are the ones that pass them (a vote by a non-validator is
-     refused by Validate and by the handler alike).  Validate does NOT check the sign of a fund / withdraw amount.
+     refused by Validate and by the handler alike).  The handlers themselves refuse non-positive fund / withdraw amounts.
    * Go [float64]: ResultSoFar compares yes/total and 1-no/total with pass/100 in float64; the
      model compares exactly ([yes*100 >= pass*total], [(total-no)*100 < pass*total]).  Exact for
      total power < 2^45 and [(total-no)*100 <> pass*total] (tally_float_guard).  The shares of the
@@ -69,11 +69,7 @@ Record env := mkEnv {
   e_active : list (N * Z);    (* GetActiveValidatorList: address, power *)
   e_vals : list N;            (* GetValidatorSet: addresses *)
   e_bounty : N; e_exec : N;
-  e_cfgfail : list N;         (* ids whose update function returns an error at finalisation *)
-  e_keep : list (N * N)       (* (id, funder) records that DeleteAllFunds does not reach: it iterates the COMMITTED
-                                 tree only and stops at the first key deleted earlier in the same block, so
-                                 records written in this block, and all records of a proposal finalised after
-                                 another one in the same block, survive (the total is still set to 0) *)
+  e_cfgfail : list N          (* ids whose update function returns an error at finalisation *)
 }.
 
 Definition opts_of (e : env) (t : ptype) : opts :=
@@ -152,9 +148,11 @@ Definition with_voting (blk : Z) (p : prec) (vdl : Z) (vs : list vote) : prec :=
   mkP (p_store p) StVoting (p_outcome p) (p_type p) (p_proposer p) (p_fdl p) vdl (p_goal p)
       (p_pass p) (p_total p) (p_indiv p) vs blk (p_newf p) (p_extra p).
 
-(* DeleteAllFunds: the records named in [e_keep] survive *)
-Definition del_funds (e : env) (id : N) (p : prec) : prec :=
-  with_funds p 0 (filter (fun kv => bool_decide ((id, kv.1) ∈ e_keep e)) (p_indiv p)).
+(* DeleteAllFunds (since /repo d859128: the funders are collected first and the scan skips deleted records): every
+   funder record goes and the total is set to 0.  The scan still sees committed keys only; a record written in the
+   block of the finalisation would survive, but none can exist: the tally sees the votes only from the block after
+   the snapshot on, and contributions stop at the snapshot. *)
+Definition del_funds (p : prec) : prec := with_funds p 0 [].
 
 (* AddFunds *)
 Definition with_newf (p : prec) (nf : list (N * Z)) : prec :=
@@ -229,6 +227,7 @@ Definition h_create (s : state) (e : env) (id : N) (ty : ptype) (proposer : N)
        end.
 
 Definition h_fund (s : state) (e : env) (id funder : N) (amt : Z) : hres :=
+  if amt <=? 0 then None else     (* /repo 65cdcf3: a contribution is a positive amount *)
   match g_props s !! id with
   | Some p =>
       if negb (bool_decide (p_store p = SActive)) then None
@@ -256,7 +255,7 @@ Definition h_vote (s : state) (e : env) (id val : N) (o : opinion) : hres :=
                (* ResultSoFar iterates the committed tree: in the block of the snapshot it finds no records *)
                if p_snapblk p =? g_blk s then None else
                let p1 := with_votes p vs in
-               let p2 := match tally vs (o_pass (opts_of e (p_type p))) with
+               let p2 := match tally vs (p_pass p) with   (* /repo c39c303: the proposal's own percentage *)
                          | RPassed => with_stage p1 SPassed StCompleted OCompletedYes
                          | RFailed => with_stage p1 SFailed StCompleted OCompletedNo
                          | RTBD => p1
@@ -283,18 +282,18 @@ Definition refundable (oc : outcome) : bool :=
 Definition h_withdraw (s : state) (id funder : N) (amt : Z) (ben : N) : hres :=
   match g_props s !! id with
   | Some p =>
-      let step1 : option (prec * bool) :=
-        if refundable (p_outcome p) then Some (p, false)
+      (* /repo d859128: only while the proposal is in the active or the failed store; 7960770: positive amounts only *)
+      if negb (bool_decide (p_store p = SActive) || bool_decide (p_store p = SFailed)) then None
+      else if amt <=? 0 then None
+      else
+      let step1 : option prec :=
+        if refundable (p_outcome p) then Some p
         else if (p_goal p <=? p_total p) || (g_h s <=? p_fdl p) then None
         else (* Set into the failed store, Delete from the active store *)
-          (* read from the finalized / finalizeFailed store: that copy stays behind (p_extra); read from the
-             passed store: the model gives up (g_anom) *)
-          Some (with_extra (with_stage p SFailed StCompleted OInsufFunds)
-                  (match p_store p with SFinalized => 8 | SFinFailed => 16 | _ => p_extra p end),
-                bool_decide (p_store p = SPassed)) in
+          Some (with_stage p SFailed StCompleted OInsufFunds) in
       match step1 with
       | None => None
-      | Some (p1, anom) =>
+      | Some p1 =>
           match (if funded_visible (g_blk s) p1 funder then alookup funder (p_indiv p1) else None) with
           | None => None
           | Some cur =>
@@ -302,8 +301,7 @@ Definition h_withdraw (s : state) (id funder : N) (amt : Z) (ben : N) : hres :=
               else if p_total p1 - amt <? 0 then None
               else
                 let p2 := with_funds p1 (p_total p1 - amt) (aupd funder (- amt) (p_indiv p1)) in
-                let s1 := add_bal (set_prop s id p2) ben amt in
-                Some (if anom then set_anom s1 else s1, [EvRefund id funder ben amt])
+                Some (add_bal (set_prop s id p2) ben amt, [EvRefund id funder ben amt])
           end
       end
   | None => None
@@ -371,12 +369,12 @@ Definition h_finalize (s : state) (e : env) (id : N) : hres :=
                          let evc := if bool_decide (p_type p = TConfig) then [EvConfig id] else [] in
                          let s0 := if bool_decide (p_type p = TConfig) then push_applied s id else s in
                          let '(s1, paid, bad) := distribute s0 e id p (o_dpass (opts_of e (p_type p))) in
-                         let p1 := del_funds e id (fin_move p SPassed SFinalized 8) in
+                         let p1 := del_funds (fin_move p SPassed SFinalized 8) in
                          let s2 := set_prop s1 id p1 in
                          Some (if bad then set_anom s2 else s2, evc ++ [EvDistrib id paid (p_total p)])
                    | RFailed =>
                        let '(s1, paid, bad) := distribute s e id p (o_dfail (opts_of e (p_type p))) in
-                       let p1 := del_funds e id (fin_move p SFailed SFinalized 8) in
+                       let p1 := del_funds (fin_move p SFailed SFinalized 8) in
                        let s2 := set_prop s1 id p1 in
                        Some (if bad then set_anom s2 else s2, [EvDistrib id paid (p_total p)])
                    end
